@@ -143,6 +143,10 @@ class Effects:
         for b in self.f.bodies.values():
             opens = [cs for (p, e, cs) in self._raw_sites(b) if e == 'OPENRO' and cs.name.startswith('std::fs::OpenOptions::open')]
             syncs = [cs for (p, e, cs) in self._raw_sites(b) if e == 'FSYNC']
+            # `open(dir).and_then(|fd| fd.sync_data())`: the fsync sits in a closure this body calls (A-DESUGAR)
+            for c in b.calls:
+                if c.node is not None and c.node in self.f.bodies and self.f.bodies[c.node].is_closure:
+                    syncs += [cs for (p, e, cs) in self._raw_sites(self.f.bodies[c.node]) if e == 'FSYNC']
             if not opens or not syncs:
                 continue
             ok = False
